@@ -427,7 +427,12 @@ func (a *admin) intruder() {
 		run.led.onSetIdentityAttempt(ni, err)
 		return
 	}
-	served := ni.r != nil && ni.mainG != nil // the first instance has at least reached Serve's lock
+	// the first instance must be past Serve's lock (its state loop runs): an intruder that gets
+	// there first is simply the instance that serves, and the other one is refused
+	served := ni.r != nil && ni.mainG != nil && ni.r.ldr != nil && !ni.closing()
+	if !served {
+		return
+	}
 	// a refused attempt is often followed by another one (an operator retrying)
 	for attempt := 0; attempt < 3; attempt++ {
 		if !a.intrude(ni, served) || !t.Chance(rt.StPlan, 1, 2) {
